@@ -158,6 +158,12 @@ class Hang(Exception):
 
 
 def run_trr(blobs, frames, cuts, workdir):
+    """Both timings of the program's exit: one look after its last write, and together with its last write."""
+    out = run_trr_once(blobs, frames, cuts, workdir, False)
+    return out if out else [(sig + ":exit-with-last-write", msg, at) for sig, msg, at in run_trr_once(blobs, frames, cuts, workdir, True)]
+
+
+def run_trr_once(blobs, frames, cuts, workdir, exit_with_last):
     from infretis.classes.engines import gromacs
     data = b"".join(blobs)
     path = os.path.join(workdir, f"t{os.getpid()}.trr")
@@ -192,6 +198,8 @@ def run_trr(blobs, frames, cuts, workdir):
         if state["i"] + 1 < len(stages):
             state["i"] += 1
             grow()
+            if exit_with_last and state["i"] + 1 == len(stages):
+                state["rc"] = 0  # the last write and the exit fall between two looks of the reader
         else:
             state["rc"] = 0      # the program has written everything and exits
 
